@@ -106,6 +106,7 @@ func runSmall(c *core.Ctx) []core.Obligation {
 	smallWave22(c, b)
 	smallDataWordNotDereferenced(c, b)
 	smallEmptyArrayFreshSlice(c, b)
+	smallWave23(c, b)
 	smallStringOptionNull(c, b)
 	smallStringOptionMarshaler(c, b)
 	return b.out
@@ -279,7 +280,8 @@ func smallKeysetLength(c *core.Ctx, b *ob) {
 					}
 					lx, okx := lenArg(bo.X)
 					ly, oky := lenArg(bo.Y)
-					if okx && oky && (lx == k || ly == k) {
+					// k spilled to a local (its address is taken elsewhere) is loaded once per use
+					if okx && oky && (sameKeyValue(lx, k) || sameKeyValue(ly, k)) {
 						confirmed = true
 					}
 				}
@@ -308,6 +310,52 @@ func smallHTMLFragment(c *core.Ctx, b *ob) {
 		return
 	}
 	escapeHTML := jsonConst(c, "EscapeHTML")
+	// the fragment itself is written by the encoder's own string routine under the flags given:
+	// isValidTag lets &, <, > and every non-ASCII letter into a field name, which encoding/json
+	// escapes (or not) exactly as it does string values
+	{
+		key := "key-fragments:written-by-encodeString"
+		var fp ssa.Value
+		for _, p := range ekf.Params {
+			if p.Name() == "flags" || strings.HasSuffix(p.Type().String(), "AppendFlags") {
+				fp = p
+			}
+		}
+		ok := false
+		for _, ci := range callsIn(ekf) {
+			f := staticCallee(ci.Common())
+			if f == nil || f.Name() != "encodeString" || len(ci.Common().Args) == 0 {
+				continue
+			}
+			// receiver: an encoder whose flags field was stored from the parameter
+			{
+				ld, isLd := ci.Common().Args[0].(*ssa.UnOp)
+				if !isLd || ld.Op != token.MUL {
+					continue
+				}
+				cell := cellOf(ld.X)
+				if cell == nil {
+					continue
+				}
+				for _, blk := range ekf.Blocks {
+					for _, in := range blk.Instrs {
+						st, isSt := in.(*ssa.Store)
+						if !isSt {
+							continue
+						}
+						if fa, isFA := st.Addr.(*ssa.FieldAddr); isFA && fa.X == ssa.Value(cell) && strings.HasSuffix(fieldAddrID(fa), "encoder.flags") && fp != nil && stripConv(st.Val) == fp {
+							ok = true
+						}
+					}
+				}
+			}
+		}
+		if ok {
+			b.addP([]string{"C01", "C14"}, core.Discharged, key, c.FuncPos(ekf), "encodeKeyFragment writes the name with encoder{flags: flags}.encodeString")
+		} else {
+			b.addP([]string{"C01", "C14"}, core.Violation, key, c.FuncPos(ekf), "encodeKeyFragment no longer writes the field name with encoder{flags: flags}.encodeString: a tag name may contain &, <, > and non-ASCII letters (isValidTag allows them), which encoding/json writes as \\u0026, \\u003c, \\u003e under EscapeHTML and U+2028/U+2029 as \\u2028/\\u2029 always — a name copied as it is differs from the standard library's key")
+		}
+	}
 	for _, field := range []string{"json", "html"} {
 		key := "key-fragments:" + field
 		n, bad := 0, ""
@@ -397,7 +445,7 @@ func smallGeometricGrowth(c *core.Ctx, b *ob) {
 		}
 		return nil
 	})
-	check("json.(decoder).decodeSlice", []string{"C02"}, func(call *ssa.Call) ssa.Value {
+	check("json.(decoder).decodeSlice", []string{"C02", "C06"}, func(call *ssa.Call) ssa.Value {
 		if f := staticCallee(call.Common()); f != nil && f.Name() == "extendSlice" && len(call.Common().Args) == 3 {
 			return call.Common().Args[2]
 		}
@@ -6154,5 +6202,504 @@ func smallEmptyArrayFreshSlice(c *core.Ctx, b *ob) {
 		b.addP(props, core.Discharged, key, c.FuncPos(fn), "on the closing bracket of an empty array the slice is replaced, capacity included")
 	} else {
 		b.addP(props, core.Violation, key, c.FuncPos(fn), "decodeSlice keeps the backing array of the destination when the input is the empty array: encoding/json replaces the slice by a fresh empty one, so decoding [] and then [{\"A\":1}] into a []T that held {B: 2} gives {A:1 B:0} there and {A:1 B:2} here — the stale element is merged into")
+	}
+}
+
+// smallWave23 — clauses added for the twenty-third round of seeded changes.
+func smallWave23(c *core.Ctx, b *ob) {
+	// (a) the map codecs specialised to map[string]V are selected by identity of the key type with
+	// string, not by its kind: a named key type of string kind may implement TextUnmarshaler, which
+	// the generic path below the switch honours and decodeMapString* (decodeString on the key) do not
+	{
+		props := []string{"C02", "C01"}
+		key := "map-fast-path:key-type-is-string"
+		fn := c.Lookup("json.constructMapCodec")
+		if fn == nil {
+			b.addP(props, core.Undecided, key, "-", "json.constructMapCodec not found")
+		} else {
+			n, bad := 0, ""
+			for _, blk := range fn.Blocks {
+				special := ""
+				for _, in := range blk.Instrs {
+					for _, op := range in.Operands(nil) {
+						if op == nil || *op == nil {
+							continue
+						}
+						var f *ssa.Function
+						switch x := (*op).(type) {
+						case *ssa.Function:
+							f = x
+						case *ssa.MakeClosure:
+							f, _ = x.Fn.(*ssa.Function)
+						}
+						if f != nil && (strings.Contains(f.Name(), "decodeMapString") || strings.Contains(f.Name(), "encodeMapString")) {
+							special = f.Name()
+						}
+					}
+				}
+				if special == "" {
+					continue
+				}
+				n++
+				ok := false
+				for _, a := range trueAtoms(blk, 0) {
+					bo, isB := a.(*ssa.BinOp)
+					if !isB || bo.Op != token.EQL {
+						continue
+					}
+					for _, pair := range [][2]ssa.Value{{bo.X, bo.Y}, {bo.Y, bo.X}} {
+						g := globalOfLoad(pair[0])
+						if g == nil || g.Name() != "stringType" {
+							continue
+						}
+						for _, o := range origins(pair[1]) {
+							if call, isC := o.(*ssa.Call); isC && call.Common().IsInvoke() && call.Common().Method.Name() == "Key" {
+								ok = true
+							}
+						}
+					}
+				}
+				if !ok {
+					bad = fmt.Sprintf("%s: %s", c.InstrPos(blk.Instrs[0]), special)
+				}
+			}
+			switch {
+			case n == 0:
+				b.addP(props, core.Undecided, key, c.FuncPos(fn), "no map[string]V specialisation found in constructMapCodec")
+			case bad != "":
+				b.addP(props, core.Violation, key, bad, "a codec specialised to map[string]V is selected without the key type being string itself ("+bad+"): a named key type of string kind that implements encoding.TextUnmarshaler (or TextMarshaler) takes the fast path, which reads and writes the key as a plain string — encoding/json calls UnmarshalText, so the entries land under different keys")
+			default:
+				b.addP(props, core.Discharged, key, c.FuncPos(fn), fmt.Sprintf("%d specialised map codecs, each under t.Key() == stringType", n))
+			}
+		}
+	}
+	// (c) white space in a JSON document is the four characters of RFC 8259, which json's own
+	// skipSpaces implements (R-BYTECLASS decides its set): no function of package json classifies or
+	// trims document bytes with the standard library's Unicode notion of space (bytes.TrimSpace also
+	// removes \v, \f, U+0085, U+00A0 and the Z category)
+	{
+		props := []string{"C05", "C02"}
+		key := "json-white-space:own-scanner-only"
+		unicodeSpace := map[string]bool{"bytes.TrimSpace": true, "strings.TrimSpace": true, "unicode.IsSpace": true, "bytes.Fields": true, "strings.Fields": true, "bufio.ScanWords": true}
+		n, bad := 0, ""
+		for _, fn := range c.RepoFunctions() {
+			if fn.Blocks == nil || !strings.HasPrefix(shortName(fn), "json.") {
+				continue
+			}
+			n++
+			for _, blk := range fn.Blocks {
+				for _, in := range blk.Instrs {
+					for _, op := range in.Operands(nil) {
+						if op == nil || *op == nil {
+							continue
+						}
+						f, isF := (*op).(*ssa.Function)
+						if !isF || f.Pkg == nil {
+							continue
+						}
+						if name := f.Pkg.Pkg.Path() + "." + f.Name(); unicodeSpace[name] {
+							bad = fmt.Sprintf("%s: %s uses %s", c.InstrPos(in), shortName(fn), name)
+						}
+					}
+				}
+			}
+		}
+		switch {
+		case n == 0:
+			b.addP(props, core.Undecided, key, "-", "no function of package json found")
+		case bad != "":
+			b.addP(props, core.Violation, key, bad, bad+": the standard library's notion of white space is Unicode's (\\v, \\f, U+0085, U+00A0, U+2028 … besides the four JSON characters), so bytes that encoding/json rejects around or inside a document are skipped here — Valid(\"\\f1\") is true")
+		default:
+			b.addP(props, core.Discharged, key, "-", fmt.Sprintf("%d functions of package json: none refers to bytes.TrimSpace, strings.TrimSpace, unicode.IsSpace, Fields or ScanWords", n))
+		}
+	}
+	// (d) what a decoder allocates is sized by the length of what it was given, never by the
+	// capacity: the decoders hand Unmarshal methods and element decoders windows of the input, whose
+	// capacity runs to the end of the caller's buffer — n three-byte messages in one input would
+	// allocate n times the input
+	for _, pk := range []struct {
+		pkg   string
+		props []string
+	}{{"proto", []string{"C07"}}, {"thrift", []string{"C08"}}} {
+		key := "alloc-by-capacity:" + pk.pkg
+		n, bad := 0, ""
+		for _, fn := range c.RepoFunctions() {
+			if fn.Blocks == nil || !strings.HasPrefix(shortName(fn), pk.pkg+".") {
+				continue
+			}
+			for _, blk := range fn.Blocks {
+				for _, in := range blk.Instrs {
+					mk, ok := in.(*ssa.MakeSlice)
+					if !ok {
+						continue
+					}
+					n++
+					for _, sz := range []ssa.Value{mk.Len, mk.Cap} {
+						if dependsOn(sz, func(x ssa.Value) bool {
+							call, isC := x.(*ssa.Call)
+							if !isC {
+								return false
+							}
+							bi, isB := call.Common().Value.(*ssa.Builtin)
+							if !isB || bi.Name() != "cap" {
+								return false
+							}
+							for _, o := range origins(call.Common().Args[0]) {
+								if _, isP := o.(*ssa.Parameter); isP {
+									return true
+								}
+							}
+							return false
+						}) {
+							bad = fmt.Sprintf("%s: %s", c.InstrPos(mk), shortName(fn))
+						}
+					}
+				}
+			}
+		}
+		switch {
+		case n == 0:
+			b.addP(pk.props, core.Info, key, "-", "no slice allocation in package "+pk.pkg)
+		case bad != "":
+			b.addP(pk.props, core.Violation, key, bad, bad+" sizes an allocation by the capacity of a slice it was handed: the decoders pass windows of the input, whose capacity extends to the end of the caller's buffer, so every small value allocates as much as the rest of the input (4000 three-byte messages: 27 MB for 12 KB)")
+		default:
+			b.addP(pk.props, core.Discharged, key, "-", fmt.Sprintf("%d slice allocations: none is sized by cap() of a parameter", n))
+		}
+	}
+	// (e) thrift's decode errors are wrapped with the path to the failing element; the wrapper
+	// exposes what it wraps through Unwrap, so that errors.As finds the *MissingField / *TypeMismatch
+	// below it and errors.Is the io errors — an Is method alone answers errors.Is and hides the
+	// typed error from errors.As
+	{
+		props := []string{"C08"}
+		key := "decode-error:unwraps-its-base"
+		fn := c.Lookup("thrift.(*decodeError).Unwrap")
+		if fn == nil || fn.Blocks == nil {
+			if c.Lookup("thrift.(*decodeError).Error") == nil {
+				b.addP(props, core.Undecided, key, "-", "thrift.decodeError not found")
+			} else {
+				b.addP(props, core.Violation, key, c.FuncPos(c.Lookup("thrift.(*decodeError).Error")), "thrift.decodeError has no Unwrap method: a *MissingField or *TypeMismatch reported for a nested value (a field, a list element) is wrapped in it with the path, and errors.As no longer reaches the typed error — only top-level failures are reported in the documented form")
+			}
+		} else {
+			ok := false
+			for _, r := range returnsOf(fn) {
+				if len(r.Results) == 1 {
+					if f, isF := fieldOfLoad(r.Results[0]); isF && strings.HasSuffix(f, "decodeError.base") {
+						ok = true
+					}
+				}
+			}
+			if ok {
+				b.addP(props, core.Discharged, key, c.FuncPos(fn), "(*decodeError).Unwrap returns the wrapped error")
+			} else {
+				b.addP(props, core.Violation, key, c.FuncPos(fn), "(*decodeError).Unwrap does not return the wrapped error e.base: errors.As / errors.Is stop at the wrapper, and the *MissingField / *TypeMismatch / io.ErrUnexpectedEOF of a nested value is not reported as such")
+			}
+		}
+	}
+	// (f) Unescape hands out memory of its own: the scanners (parseString*, parseStringUnquote)
+	// return windows of the input when the text has no escape sequence, and a window returned to the
+	// caller has the rest of the input as spare capacity — appending to the result rewrites the input
+	{
+		props := []string{"C10"}
+		key := "unescape:result-is-a-copy"
+		fn := c.Lookup("json.Unescape")
+		if fn == nil {
+			b.addP(props, core.Undecided, key, "-", "json.Unescape not found")
+		} else {
+			bad := ""
+			var windowOf func(v ssa.Value, depth int) string
+			windowOf = func(v ssa.Value, depth int) string {
+				if depth > 4 {
+					return ""
+				}
+				for _, o := range origins(v) {
+					switch x := o.(type) {
+					case *ssa.Parameter:
+						if isSliceType(x.Type()) {
+							return "the parameter " + x.Name()
+						}
+					case *ssa.Slice:
+						if w := windowOf(x.X, depth+1); w != "" {
+							return "a window of " + w
+						}
+					case *ssa.Extract:
+						if call, isC := x.Tuple.(*ssa.Call); isC {
+							if f := staticCallee(call.Common()); f != nil && strings.HasPrefix(f.Name(), "parse") && isSliceType(x.Type()) {
+								return "a result of " + f.Name()
+							}
+						}
+					}
+				}
+				return ""
+			}
+			for _, r := range returnsOf(fn) {
+				for _, res := range r.Results {
+					if w := windowOf(res, 0); w != "" {
+						bad = c.InstrPos(r) + ": " + w
+					}
+				}
+			}
+			if bad != "" {
+				b.addP(props, core.Violation, key, bad, "json.Unescape returns "+bad+": for a string without escape sequences the scanners return the bytes of the input between the quotes, so the result shares memory with the argument (and has the rest of it as capacity) without any zero-copy flag having been given")
+			} else {
+				b.addP(props, core.Discharged, key, c.FuncPos(fn), "no return value of Unescape is its argument, a window of it or a scanner's result")
+			}
+		}
+	}
+	// (g) the path recorded in an UnmarshalTypeError is made of strings of its own: the error is a
+	// result like any other, and an unsafe view of the key bytes (the input, or the Decoder's read
+	// buffer) changes under the caller when the buffer is reused — prependField returns its first
+	// argument unchanged for a top-level field
+	{
+		props := []string{"C10"}
+		key := "type-error-path:owned-strings"
+		n, bad := 0, ""
+		for _, fn := range c.RepoFunctions() {
+			recv := fn.Signature.Recv()
+			if recv == nil || fn.Blocks == nil || namedKey(recv.Type()) != "json.decoder" {
+				continue
+			}
+			for _, ci := range callsIn(fn) {
+				f := staticCallee(ci.Common())
+				if f == nil || f.Name() != "prependField" {
+					continue
+				}
+				n++
+				for _, a := range ci.Common().Args[1:] {
+					if !isStringType(a.Type()) {
+						continue
+					}
+					for _, o := range origins(a) {
+						if ld, ok := o.(*ssa.UnOp); ok && ld.Op == token.MUL {
+							if cv, isC := ld.X.(*ssa.Convert); isC {
+								if _, fromPtr := cv.X.Type().Underlying().(*types.Basic); fromPtr {
+									bad = c.InstrPos(ci) + " in " + shortName(fn)
+								}
+							}
+						}
+					}
+				}
+			}
+		}
+		switch {
+		case n == 0:
+			b.addP(props, core.Info, key, "-", "no call of prependField")
+		case bad != "":
+			b.addP(props, core.Violation, key, bad, "the key handed to prependField at "+bad+" is an unsafe string view of the key's bytes: for a field of the outermost struct prependField returns it as it is, so UnmarshalTypeError.Field points into the input (or the Decoder's read buffer) and changes when that memory is reused")
+		default:
+			b.addP(props, core.Discharged, key, "-", fmt.Sprintf("%d calls of prependField: no argument is an unsafe view of a byte slice", n))
+		}
+	}
+	// (h) the thrift writers build fixed-width values in a scratch array that lives in the writer:
+	// every byte of the window handed to write() is stored by the same call, before it — a byte left
+	// as it was carries whatever the previous value wrote there into the output
+	{
+		props := []string{"C13", "C04"}
+		n, bad := 0, ""
+		isScratch := func(v ssa.Value) bool {
+			fa, ok := v.(*ssa.FieldAddr)
+			if !ok {
+				return false
+			}
+			_, isArr := fa.Type().Underlying().(*types.Pointer).Elem().Underlying().(*types.Array)
+			return isArr && strings.HasPrefix(fieldAddrID(fa), "thrift.") && strings.HasSuffix(fieldAddrID(fa), "Writer.b")
+		}
+		for _, fn := range c.RepoFunctions() {
+			if fn.Blocks == nil || !strings.HasPrefix(shortName(fn), "thrift.") {
+				continue
+			}
+			for _, ci := range callsIn(fn) {
+				call, isCall := ci.(*ssa.Call)
+				if !isCall {
+					continue
+				}
+				var win *ssa.Slice
+				for _, a := range call.Common().Args {
+					if sl, ok := a.(*ssa.Slice); ok && isScratch(sl.X) && sl.High != nil {
+						win = sl
+					}
+				}
+				if win == nil {
+					continue
+				}
+				if f := staticCallee(call.Common()); f != nil && f.Pkg != nil && f.Pkg.Pkg.Path() == "encoding/binary" {
+					continue // a Put into the window, not an emission
+				}
+				hi, okH := constInt(win.High)
+				lo := int64(0)
+				if win.Low != nil {
+					l, okL := constInt(win.Low)
+					if !okL {
+						continue
+					}
+					lo = l
+				}
+				if !okH {
+					continue // a computed length (varint): the bytes below it are stored by the loop that counts them
+				}
+				n++
+				covered := map[int64]bool{}
+				for _, blk := range fn.Blocks {
+					for _, in := range blk.Instrs {
+						ins, _ := in.(ssa.Instruction)
+						if !instrDominates(ins, call) {
+							continue
+						}
+						switch x := in.(type) {
+						case *ssa.Store:
+							if ia, ok := x.Addr.(*ssa.IndexAddr); ok && isScratch(ia.X) {
+								if k, isK := constInt(ia.Index); isK {
+									covered[k] = true
+								}
+							}
+						case *ssa.Call:
+							f := staticCallee(x.Common())
+							if f == nil || f.Pkg == nil || f.Pkg.Pkg.Path() != "encoding/binary" || !strings.HasPrefix(f.Name(), "PutUint") {
+								continue
+							}
+							width := map[string]int64{"PutUint16": 2, "PutUint32": 4, "PutUint64": 8}[f.Name()]
+							for _, a := range x.Common().Args {
+								sl, ok := a.(*ssa.Slice)
+								if !ok || !isScratch(sl.X) {
+									continue
+								}
+								off := int64(0)
+								if sl.Low != nil {
+									l, okL := constInt(sl.Low)
+									if !okL {
+										continue
+									}
+									off = l
+								}
+								for i := int64(0); i < width; i++ {
+									covered[off+i] = true
+								}
+							}
+						}
+					}
+				}
+				for i := lo; i < hi; i++ {
+					if !covered[i] {
+						bad = fmt.Sprintf("%s: %s emits b[%d:%d] without having stored b[%d]", c.InstrPos(call), shortName(fn), lo, hi, i)
+					}
+				}
+			}
+		}
+		key := "thrift-scratch:window-fully-written"
+		switch {
+		case n == 0:
+			b.addP(props, core.Undecided, key, "-", "no emission of a constant window of a writer's scratch array found")
+		case bad != "":
+			b.addP(props, core.Violation, key, bad, bad+": the scratch array belongs to the writer and keeps the bytes of the previous fixed-width value, so the output depends on what was written before (a strict message header after an i64 is 80 f8 00 01 instead of 80 00 00 01)")
+		default:
+			b.addP(props, core.Discharged, key, "-", fmt.Sprintf("%d emissions of a constant window of the scratch array, every byte stored earlier in the same call", n))
+		}
+	}
+	// (i) the compact protocol writes lengths, counts and ids as varints: an integer wider than a
+	// byte handed to writeByte as it is (a "fits in one byte" fast path) is a valid varint only
+	// below 0x80 — 0x80 itself is a lone continuation byte
+	{
+		props := []string{"C13", "C04"}
+		n, bad := 0, ""
+		for _, fn := range c.RepoFunctions() {
+			name := shortName(fn)
+			if fn.Blocks == nil || !strings.HasPrefix(name, "thrift.(*compactWriter).") || strings.Contains(name, "arint") {
+				continue
+			}
+			for _, ci := range callsIn(fn) {
+				f := staticCallee(ci.Common())
+				if f == nil || f.Name() != "writeByte" {
+					continue
+				}
+				for _, a := range ci.Common().Args {
+					cv, ok := a.(*ssa.Convert)
+					if !ok {
+						continue
+					}
+					if bt, ok := cv.Type().Underlying().(*types.Basic); !ok || bt.Kind() != types.Uint8 {
+						continue
+					}
+					src, ok := cv.X.Type().Underlying().(*types.Basic)
+					if !ok || src.Info()&types.IsInteger == 0 || src.Kind() == types.Uint8 || src.Kind() == types.Int8 {
+						continue
+					}
+					if _, isK := cv.X.(*ssa.Const); isK {
+						continue
+					}
+					if bo, isBO := cv.X.(*ssa.BinOp); isBO && bo.Op == token.SHL {
+						continue // a nibble of a header byte (R-THRIFTLAYOUT decides those)
+					}
+					n++
+					_, hi := rangeFacts(cv.X, ci.Block())
+					if hi == nil || hi.Int64() > 127 {
+						have := "unbounded"
+						if hi != nil {
+							have = "<= " + hi.String()
+						}
+						bad = fmt.Sprintf("%s: %s writes an integer (%s) as one raw byte", c.InstrPos(ci), name, have)
+					}
+				}
+			}
+		}
+		key := "compact-raw-varint-byte"
+		switch {
+		case bad != "":
+			b.addP(props, core.Violation, key, bad, bad+": only values below 0x80 are one-byte varints; a length of exactly 128 written as the byte 80 is a continuation byte without an end, and the reader fails or mis-parses what follows")
+		default:
+			b.addP(props, core.Discharged, key, "-", fmt.Sprintf("%d integer(s) wider than a byte written with writeByte outside the varint encoder, each proven < 0x80", n))
+		}
+	}
+	// (b) decodeTime parses the raw bytes between the quotes (a window of the input): Time.UnmarshalJSON
+	// does not interpret escape sequences, "2006-01-02T15:04:05\u005a" is an error in encoding/json
+	{
+		props := []string{"C02"}
+		key := "decode-time:raw-bytes"
+		fn := c.Lookup("json.(decoder).decodeTime")
+		if fn == nil {
+			b.addP(props, core.Undecided, key, "-", "json.(decoder).decodeTime not found")
+		} else {
+			var in ssa.Value
+			for _, p := range fn.Params {
+				if p.Name() == "b" {
+					in = p
+				}
+			}
+			n, bad := 0, ""
+			for _, ci := range callsIn(fn) {
+				f := staticCallee(ci.Common())
+				if f == nil || f.Pkg == nil || f.Pkg.Pkg.Name() != "iso8601" || !strings.HasPrefix(f.Name(), "Parse") {
+					continue
+				}
+				n++
+				for _, o := range origins(ci.Common().Args[0]) {
+					v := o
+					if ld, ok := v.(*ssa.UnOp); ok && ld.Op == token.MUL {
+						if cell := cellOf(stripConv(ld.X)); cell != nil {
+							for _, sv := range cellStores(cell) {
+								for _, o2 := range origins(sv) {
+									sl, isS := o2.(*ssa.Slice)
+									if !isS || in == nil || stripConv(sl.X) != in {
+										bad = c.InstrPos(ci) + ": " + o2.String()
+									}
+								}
+							}
+							continue
+						}
+					}
+					if sl, isS := v.(*ssa.Slice); isS && in != nil && stripConv(sl.X) == in {
+						continue
+					}
+					bad = c.InstrPos(ci) + ": " + v.String()
+				}
+			}
+			switch {
+			case n == 0:
+				b.addP(props, core.Undecided, key, c.FuncPos(fn), "decodeTime does not call iso8601.Parse")
+			case bad != "":
+				b.addP(props, core.Violation, key, bad, "decodeTime parses something other than the bytes of the input between the quotes ("+bad+"): encoding/json hands the raw text to Time.UnmarshalJSON, which does not interpret escape sequences, so a time written with \\u005a for Z is an error there and would be accepted here")
+			default:
+				b.addP(props, core.Discharged, key, c.FuncPos(fn), "the text parsed is a window b[i:j] of the input")
+			}
+		}
 	}
 }
